@@ -125,6 +125,11 @@ func c08Bads() []CfgLit {
 		mut(func(l *CfgLit) { l.RequestHeaders = []string{"*", "X-D", "bad name"} }),
 		mut(func(l *CfgLit) { l.ResponseHeaders = []string{"Set-Cookie"} }),
 		mut(func(l *CfgLit) { l.ResponseHeaders = []string{"*"} }),
+		mut(func(l *CfgLit) { l.Origins = []string{"https://*.amazonaws.com", "https://*.s3.amazonaws.com"} }),
+		mut(func(l *CfgLit) {
+			l.Origins = []string{"https://*.fastly.net:*", "https://*.global.ssl.fastly.net:8443"}
+		}),
+		mut(func(l *CfgLit) { l.Origins = []string{"https://xn--a-zhc.com"} }),
 		// near misses of the hosts the insecure-origin rule exempts (d is credentialed and tolerates nothing)
 		mut(func(l *CfgLit) { l.Origins = []string{"https://d.example", "http://notlocalhost"} }),
 		mut(func(l *CfgLit) { l.Origins = []string{"http://app.localhost:3000"} }),
